@@ -801,11 +801,13 @@ def run(ctx):
     keep = ("op", "F", "M", "fd", "md", "mask", "oc", "rmsd2q", "sane", "min_anchors", "anchors", "fa", "ma",
             "sF", "sM", "maxit")
     nmm = 0
-    for chunk in helpers.chunked(traces, 350):
+    for ci, chunk in enumerate(helpers.chunked(traces, 350)):
         for m in helpers.tlc_validate(ctx, chunk, keep=keep, timeout=1500):
             _tag, tid, l, what, flags, bc, bounds = m
             nmm += 1
-            ctx.mismatch({"stage": "S3", "kind": "event", "what": what, "flags": flags, "spec_outcome": bc,
+            # executions of spec-generated "anch" cases are S2, recorded seeded traces are S3
+            stage = "S3" if ci * 350 + tid - 1 < len(s3traces) else "S2"
+            ctx.mismatch({"stage": stage, "kind": "event", "what": what, "flags": flags, "spec_outcome": bc,
                           "violated_bounds(model,W)": bounds, "event": chunk[tid - 1][l - 1]})
     nev = sum(len(t) for t in traces)
     ctx.traces_validated += len(s3traces)      # (the S2 anchor cases are counted with S2)
